@@ -6,7 +6,7 @@ from vlib import ref_fa, gen_fa
 
 ID = "C06"
 RULE = ("case = epsilon-NFA description whose symbols are plain tokens (alphanumerics of length 1-3, '_' and '-' "
-        "inside), 0-3 start states, 0-3 final states, start=final, self loops, parallel edges, epsilon edges, string "
+        "inside, or the integers 0-2 read as their str()), 0-3 start states, 0-3 final states, start=final, self loops, parallel edges, epsilon edges, string "
         "and other state-name pools (elimination order follows set order, 16 PYTHONHASHSEED values). r = to_regex(); "
         "the epsilon-NFA of r is extracted and compared EXACTLY (product equivalence decision) with the reference "
         "automaton; r.accepts agrees on all words of length <=3; any exception of to_regex is a failure. "
@@ -21,13 +21,18 @@ WATCHDOG = 30
 
 def strategy(tier, flags):
     return st.fixed_dictionaries({"fa": gen_fa.fa_desc(
-        sym_pools=gen_fa.PLAIN_SYM_POOLS, classes=("enfa", "enfa", "enfa", "nfa", "dfa"), allow_extra=False, big_states=(6, 7, 8))})
+        sym_pools=gen_fa.PLAIN_SYM_POOLS + ["int"], classes=("enfa", "enfa", "enfa", "nfa", "dfa"), allow_extra=False, big_states=(6, 7, 8))})
 
 
 def run_case(case):
     failures = []
     d = case["fa"]
     R = ref_fa.from_desc(d)
+    if d.get("sympool") == "int":
+        # integer symbols (0 is falsy) print as the plain tokens "0", "1", "2": the regular expression speaks
+        # about those tokens, so the reference language is relabelled through str()
+        R = ref_fa.RefNFA(R.states, R.starts, R.finals,
+                          [(p, a if a is ref_fa.EPS else str(a), q) for p, a, q in R.trans])
     with guard(failures, "build"):
         A = ref_fa.build_lib(d)
     if failures:
